@@ -627,6 +627,11 @@ func classify(c *Checked, generic bool) map[string]string {
 			case *ast.FuncDecl:
 				if nameClash.MatchString(msg) {
 					add("C12", msg)
+					// the clashing identifier is one of the mock's own type parameters: this method
+					// does not use the parameter where the interface does (C09)
+					if m := errSubject.FindStringSubmatch(msg); m != nil && d.Recv != nil && recvTypeParam(d, m[1]) {
+						add("C09", msg)
+					}
 				}
 				// a method signature naming a package or type that does not exist: the mock's
 				// method cannot have the interface's parameter and result types
@@ -657,6 +662,33 @@ func classify(c *Checked, generic bool) map[string]string {
 }
 
 var nameClash = regexp.MustCompile(`redeclared|duplicate (argument|field)|is not a type|not a package|no new variables|declared and not used|mismatched types|cannot use .* as .* value`)
+
+var errSubject = regexp.MustCompile(`^(?:\S+:\d+:\d+: )?([A-Za-z_][A-Za-z0-9_]*) `)
+
+// recvTypeParam reports whether name is one of the type parameters in the receiver of d
+// (`func (mock *M[K, V]) ...`).
+func recvTypeParam(d *ast.FuncDecl, name string) bool {
+	if d.Recv == nil || len(d.Recv.List) != 1 {
+		return false
+	}
+	t := d.Recv.List[0].Type
+	if st, ok := t.(*ast.StarExpr); ok {
+		t = st.X
+	}
+	var args []ast.Expr
+	switch x := t.(type) {
+	case *ast.IndexExpr:
+		args = []ast.Expr{x.Index}
+	case *ast.IndexListExpr:
+		args = x.Indices
+	}
+	for _, a := range args {
+		if id, ok := a.(*ast.Ident); ok && id.Name == name {
+			return true
+		}
+	}
+	return false
+}
 
 var identRe = regexp.MustCompile(`^[A-Za-z_][A-Za-z0-9_]*$`)
 
